@@ -45,9 +45,19 @@ def run(ctx):
     try:
         pool = []
         wv = battle.wows_versions()
-        picks = wv if not q else [wv[i] for i in range(0, len(wv), 5)]
+        picks = list(wv) if not q else [wv[i] for i in range(0, len(wv), 5)]
+        # releases that ship a build-specific sibling directory (x_y_z_build next to x_y_z): both builds, always, plus a third build number -
+        # the same release triple selects different definitions/controllers depending on the build, so a per-release cache or key would show here
+        sib = [v for v in wv if len(v.split('_')) == 4 and '_'.join(v.split('_')[:3]) in wv]
+        for v in sib:
+            for x in (v, '_'.join(v.split('_')[:3])):
+                if x not in picks: picks.append(x)
         for v in picks:
             p = os.path.join(tmp, 'w-%s.wowsreplay' % v); battle.write_wows(p, v, random.Random(rng.randrange(10 ** 9)), join=(rng.random() < 0.5)); pool.append(p)
+        for v in sib:
+            base3 = '_'.join(v.split('_')[:3])
+            b, vs = battle.build_wows(base3, random.Random(rng.randrange(10 ** 9)), join=False)
+            p = os.path.join(tmp, 'w-%s-otherbuild.wowsreplay' % base3); battle.write_replay(p, 'wowsreplay', {'clientVersionFromXml': ','.join(base3.split('_') + ['99'])}, b.stream()); pool.append(p)
         for game, v in (('wot', '1_8_0'), ('wot', '1_10_0'), ('wowp', '2_1_17'), ('wowp', '1_7_5')):
             p = os.path.join(tmp, '%s-%s.%s' % (game, v, {'wot': 'wotreplay', 'wowp': 'wowpreplay'}[game])); battle.write_simple(p, game, v, random.Random(rng.randrange(10 ** 9))); pool.append(p)
         pool += [f for f in recordings.list_recordings() if os.path.getsize(f) < (800000 if q else 10 ** 9)][: (3 if q else 100)]
